@@ -97,6 +97,9 @@ def rule_sets(fpA, fpB):
         "list-without-require": [{"prefix": "/docs/", "require_cert": False, "allowed_fingerprints": [fpB]}],
         "deep-first": [{"prefix": "/app/admin/deep/", "require_cert": True, "allowed_fingerprints": [fpB]}, {"prefix": "/app/admin/", "require_cert": True, "allowed_fingerprints": [fpA, fpB]}, {"prefix": "/docs/", "require_cert": True}],
         "space-dir": [{"prefix": "/space dir/", "require_cert": True}],
+        # the same prefix twice: the first one decides (what is written is what is enforced)
+        "duplicate-prefix-strict-first": [{"prefix": "/app/", "require_cert": True, "allowed_fingerprints": [fpA]}, {"prefix": "/app/", "require_cert": False}],
+        "duplicate-prefix-lax-first": [{"prefix": "/docs/", "require_cert": False}, {"prefix": "/docs/", "require_cert": True, "allowed_fingerprints": [fpB]}, {"prefix": "/app/", "require_cert": True}],
         "decomposed-unicode-dir": [{"prefix": "/re\u0301serve\u0301/", "require_cert": True, "allowed_fingerprints": [fpA]}],
     }
 
